@@ -111,13 +111,42 @@ def alphabet(version):
                   f"{n};255;3;0;0;150", f"{n};1;1;0;0;20.5", f"{n};1;1;0;2;a;b", f"{n};1;2;0;0;", f"{n};3;1;0;0;1", f"{n};255;3;0;11;sketch",
                   f"{n};255;3;0;12;1.0", f"{n};255;3;0;6;", f"{n};255;3;0;22;123", f"{n};255;3;0;22;xyz", f"{n};255;3;0;32;", f"{n};255;3;0;21;",
                   f"{n};255;4;0;0;", f"{n};255;4;0;9;", f"{n};255;3;0;99;"]
-    lines += ["255;255;3;0;3;", "0;255;3;0;14;ready", "0;255;3;0;9;log", "0;255;3;0;2;2.2.0", "0;255;3;0;2;2.0.0", "0;255;3;0;2;1.5.1", "0;255;3;0;2;garbage",
+    lines += ["1;255;3;0;abc;57", "0;255;3;0;;2.2", "1;1;1;0;x;1", "1;255;3;0;3.0;", "1;255;4;0;zz;",
+              "255;255;3;0;3;", "0;255;3;0;14;ready", "0;255;3;0;9;log", "0;255;3;0;2;2.2.0", "0;255;3;0;2;2.0.0", "0;255;3;0;2;1.5.1", "0;255;3;0;2;garbage",
               "0;255;3;0;2;", "1;2", "", "x;1;1;0;0;1", "1;1;1;0;0", "256;1;1;0;0;1", "1;255;1;0;0;1", "1;1;3;0;0;1", "1;1;3;0;3;"]
     return lines
 
 
+def scripted(ver):
+    """Multi-step histories that single-message tests never reach (re-presentation, wake after re-presentation, req while sleeping...)."""
+    v = ver or "1.4"
+    wake = "1;255;3;0;32;" if v >= "2.2" else "1;255;3;0;22;5"
+    pres = [("recv", f"0;255;0;0;18;{v}"), ("recv", f"1;255;0;0;17;{v}"), ("recv", "1;1;0;0;6;temp"), ("recv", "1;1;1;0;0;20.5")]
+    return [
+        pres + [("recv", f"1;255;0;0;17;{v}"), ("recv", "1;1;1;0;0;21")],
+        pres + [("recv", "1;1;0;0;6;temp again"), ("recv", "1;1;2;0;0;")],
+        pres + [("recv", wake), ("send", 1, 1, 1, 0, 2, "1", True), ("send", 1, 1, 1, 0, 2, "0", True), ("recv", f"1;255;0;0;17;{v}"), ("recv", "1;1;0;0;6;t"),
+                ("recv", wake), ("recv", wake)],
+        pres + [("recv", wake), ("recv", "1;1;2;0;0;"), ("recv", wake)],
+        pres + [("recv", wake), ("send", 1, 1, 1, 0, 2, "1", True), ("send", 1, 1, 2, 0, 2, "", True), ("recv", wake)],
+        [("recv", "5;1;1;0;0;1"), ("recv", "5;255;3;0;0;50"), ("recv", "5;255;0;0;17;x"), ("recv", "5;9;1;0;0;1"), ("recv", "5;9;2;0;0;")],
+        [("recv", "255;255;3;0;3;"), ("recv", "255;255;3;0;3;"), ("recv", "2;255;3;0;6;"), ("recv", "2;255;3;0;1;")],
+        pres + [("fail",), ("recv", "7;1;1;0;0;1"), ("recv", "7;1;1;0;0;1"), ("recv", "7;255;3;0;0;5")],
+    ]
+
+
 def search(prop, versions, seed=0, budget=300):
     rng = random.Random(seed)
+    for ver in versions:
+        for known in ([ver] if ver != "1.4" else [None, "1.4"]):
+            for steps in scripted(known):
+                try:
+                    diffs = rm.run_history(known, steps)
+                except Exception as e:  # noqa: BLE001
+                    return {"version": known, "history": steps, "observed": f"harness error {e!r}"}
+                hit = [d for d in diffs if prop in d[0]]
+                if hit:
+                    return {"version": known, "history": steps, "observed": hit[0][1]}
     for ver in versions:
         for known in ([ver] if ver != "1.4" else [None, "1.4"]):
             al = alphabet(known)
